@@ -748,6 +748,10 @@ class Eval:
             if isinstance(r, tuple) and r[0] == 'agg' and isinstance(r[1], tuple) and r[1][1].endswith('RangeFrom') and len(r[2]) == 1:
                 return ('sublocalx', args[0][1], r[2][0])       # local[expr..]
             return ('idxlocal', args[0][1], r)
+        if c.endswith('Unsigned::to_usize') or c == 'lightmotif::dense::DenseMatrix::columns':
+            kc = X.const_call(c, t.get('resolved_full') or t.get('callee_full') or '')
+            if kc is not None:
+                return kc
         if c == 'core::mem::size_of':
             full = t.get('callee_full') or ''
             if '::<' in full:
